@@ -58,7 +58,11 @@ type Contract struct {
 	ModelOf      string   // model: full name of the library function
 	InlineCalls  []string // callees whose body (not contract) is used inside this function
 	SplitReturns bool     // proof hint: postconditions are proved per return statement
+	AllocBound   uint64   // >0: every make([]T, n) in the function has n <= AllocBound (obligation kind "alloc")
+	AllocProps   []string
+	Reveal       []string // opaque specification functions whose definition this proof may use
 	ModelFn      string   // model: spec-file function that replaces it
+	OpaqueFn     string   // opaque: name of the specification function
 
 	// signature (filled from the AST)
 	Recv    *Param
@@ -132,6 +136,14 @@ func ParseContractFile(pkgKey, path string) ([]*Contract, error) {
 			cur = &Contract{Pkg: pkgKey, FuncID: rest, Iface: kw == "interface", Unroll: map[int]int{},
 				Invariant: map[int][]*Clause{}, Line: it.line, File: path}
 			out = append(out, cur)
+			continue
+		case "opaque":
+			// opaque f g ...: these specification functions are uninterpreted wherever a contract
+			// does not `reveal` them
+			for _, nm := range strings.Fields(rest) {
+				out = append(out, &Contract{Pkg: pkgKey, FuncID: "opaque " + nm, OpaqueFn: nm, Line: it.line, File: path,
+					Unroll: map[int]int{}, Invariant: map[int][]*Clause{}})
+			}
 			continue
 		case "model":
 			sp := strings.Fields(rest)
@@ -213,6 +225,17 @@ func ParseContractFile(pkgKey, path string) ([]*Contract, error) {
 			}
 		case "inline":
 			cur.Inline = true
+		case "allocbound":
+			v, err := strconv.ParseUint(strings.TrimSpace(strings.Replace(rest, "1<<", "", 1)), 10, 64)
+			if err != nil {
+				return nil, fmt.Errorf("%s:%d: allocbound N or 1<<K", path, it.line)
+			}
+			if strings.HasPrefix(strings.TrimSpace(rest), "1<<") {
+				v = 1 << v
+			}
+			cur.AllocBound, cur.AllocProps = v, props
+		case "reveal":
+			cur.Reveal = append(cur.Reveal, strings.Fields(rest)...)
 		case "split":
 			if rest != "returns" {
 				return nil, fmt.Errorf("%s:%d: split returns", path, it.line)
@@ -600,7 +623,7 @@ func exprText(e ast.Expr) string {
 
 func (idx *sigIndex) fill(c *Contract) error {
 	var ft *ast.FuncType
-	if c.Lemma || c.ModelOf != "" {
+	if c.Lemma || c.ModelOf != "" || c.OpaqueFn != "" {
 		c.found = true
 		return nil
 	}
